@@ -519,6 +519,9 @@ func heapField(root types.Type, path string) string {
 
 var heapValType = map[string]types.Type{}
 
+// globalValType: type of the value held by a package-level variable that is modelled as a scalar heap variable
+var globalValType = map[string]types.Type{}
+
 func heapElem(elem types.Type) string {
 	n := "E:" + elemKey(elem)
 	heapValType[n] = elem
@@ -900,6 +903,18 @@ func (fc *FnCtx) get(st *State, name string) string {
 		if cf := fc.closedFact(n0, name, fc.declare(hAlloc+"!0", "Int")); cf != "true" {
 			fc.closedDecls = append(fc.closedDecls, "(assert "+cf+")")
 		}
+		// a package-level variable holds, at entry, a reference to an object that already exists
+		if gt := globalValType[name]; gt != nil {
+			a0 := fc.declare(hAlloc+"!0", "Int")
+			switch gt.Underlying().(type) {
+			case *types.Pointer, *types.Map, *types.Chan:
+				fc.permFact(sOr(sEq(n0, "0"), sApp("isold", n0, a0)))
+			case *types.Slice:
+				fc.permFact(sAnd(sApp("slwf", n0), sApp("<=", sApp("sl_arr", n0), a0)))
+			case *types.Interface:
+				fc.permFact(sApp("<=", sApp("ipay", n0), a0))
+			}
+		}
 		// convention: row 0 (nil) of an entry-state reference heap reads nil. Go code never reads that row (a nil
 		// dereference panics and is an obligation of its own); spec expressions are total, and without the
 		// convention p.f for a nil p would be an arbitrary reference that may alias freshly allocated objects.
@@ -1265,6 +1280,7 @@ func (fr *Frame) globalPtr(g *ssa.Global) Val {
 		return Val{S: ref, Typ: g.Type(), Loc: &Loc{Kind: LObj, Base: ref, Elem: pt}}
 	}
 	fr.fc.regVar(name, sortOf(pt))
+	globalValType[name] = pt
 	return Val{Typ: g.Type(), Loc: &Loc{Kind: LGlobal, Heap: name, Elem: pt}}
 }
 
